@@ -29,6 +29,7 @@ type engInst struct {
 	wb   engine.WriteBatch
 	dir  string
 	memT int
+	bufs [][]byte // the caller-side key / value buffers of the open batch (overwritten after the batch was written)
 }
 
 // ---- the harness's own reference: a sorted map + an ideal bounded cursor implementing engine.Iterator.
@@ -374,18 +375,26 @@ func newEngine(c *Ctx) func(string) string {
 				if e.wb == nil {
 					e.wb = e.eng.NewWriteBatch()
 				}
+				// caller-side buffers WITH SPARE CAPACITY (as a caller that builds keys in a scratch buffer has them); they are
+				// overwritten once the batch has been written (see commit): an engine must not depend on them after Write returned
+				own := func(b []byte) []byte {
+					x := make([]byte, len(b), len(b)+16)
+					copy(x, b)
+					e.bufs = append(e.bufs, x)
+					return x
+				}
 				switch f[0] {
 				case "put":
-					e.wb.Put(unhex(f[1]), unhex(f[2]))
+					e.wb.Put(own(unhex(f[1])), own(unhex(f[2])))
 				case "del":
-					e.wb.Delete(unhex(f[1]))
+					e.wb.Delete(own(unhex(f[1])))
 				case "delrange":
-					e.wb.DeleteRange(unhex(f[1]), unhex(f[2]))
+					e.wb.DeleteRange(own(unhex(f[1])), own(unhex(f[2])))
 				case "merge":
 					n, _ := strconv.ParseUint(f[2], 10, 64)
 					buf := make([]byte, 8)
 					binary.LittleEndian.PutUint64(buf, n)
-					e.wb.Merge(unhex(f[1]), buf)
+					e.wb.Merge(own(unhex(f[1])), own(buf))
 				}
 				return "ok"
 			}, false, "batch")
@@ -407,6 +416,13 @@ func newEngine(c *Ctx) func(string) string {
 				}
 				err := e.eng.Write(e.wb)
 				e.wb.Clear()
+				for _, b := range e.bufs { // the caller reuses its buffers
+					b = b[:cap(b)]
+					for i := range b {
+						b[i] = 0xEE
+					}
+				}
+				e.bufs = nil
 				if err != nil {
 					c.Note("commit-error:" + e.name + ":" + strings.SplitN(err.Error(), ":", 2)[0])
 					return "err"
